@@ -28,6 +28,7 @@
 //	    | (struct (xNAME OPT T)*)   OPT ::= t|f : the member's key type is Optional[String[NAME]] / String[NAME]
 //	    | (var T*)                  Variant (`(var)` = default Variant; a one-member Variant object stays `(var T)`)
 //	    | (opt T) | (nu T) | (type T) | (sens T) | (iter T)     Optional NotUndef Type Sensitive Iterable; default = [any]
+//	    | (itr T)                   Iterator[T]; default = (itr any).  No value term denotes an iterator.
 //	    | (obj)                     the default Object type
 //	    | (obj N+)                  user object type named by its ancestor path, root first: (obj 1) = Lat::O1,
 //	                                (obj 1 2) = Lat::O1x2 whose parent is Lat::O1, (obj 1 2 1) = Lat::O1x2x1 …
